@@ -390,7 +390,7 @@ def post_split(args, kwargs, pre, out):
             ctx.violation("split-k1-share-is-not-the-secret", "with threshold 1 every share is the secret itself", case)
         return
     if pts is None or len(pts) != n or sorted(x for x, _ in pts) != list(range(n)):
-        ctx.violation("split-wrong-share-set", f"expected {n} shares with x = 0..{n-1}, got {[p[0] for p in out[1]]}", case)
+        ctx.violation("split-wrong-share-set", f"expected {n} shares of {len(secret)} bytes with x = 0..{n-1}, got x = {[p[0] for p in out[1]]} with lengths {sorted({len(p[1]) for p in out[1]})}", case)
         return
     r = _subset_rng(secret, k, n, pts[0][1])
     subsets = [pts[:k], pts[-k:], r.sample(pts, k), r.sample(pts, k), pts]
@@ -587,15 +587,15 @@ COUNTS = {
     # reps: jobs per (pair, size); subsets: cap of k-subsets / (k-1)-subsets per job; single: shares whose every position gets all
     # 1023 substitutions; multi: sampled 2- and 3-word corruptions (each); direct/codec/crypt: direct-call counts
     "quick": dict(reps=1, subsets=5, single=1, multi=2500, direct=40, codec=300, crypt=40),
-    "thorough": dict(reps=3, subsets=14, single=6, multi=60000, direct=600, codec=6000, crypt=600),
+    "thorough": dict(reps=5, subsets=16, single=8, multi=100000, direct=800, codec=8000, crypt=800),
 }
 
 
 def shards(tier, seed):
     n = 16
-    out = [{"name": "mix", "idx": i, "n": n, "budget_s": 600 if tier == "quick" else 3000} for i in range(n)]
+    out = [{"name": "mix", "idx": i, "n": n, "budget_s": 1200 if tier == "quick" else 6600} for i in range(n)]
     if tier == "thorough":
-        out.append({"name": "repotests", "idx": 0, "n": 1, "budget_s": 3000})
+        out.append({"name": "repotests", "idx": 0, "n": 1, "budget_s": 6600})
     return out
 
 
@@ -699,7 +699,7 @@ def relabel(share_text, **changes):
 def job(ctx, rng, k, n, size, e, jn, c):
     """One (k, n, secret size, exponent) job: library split and reference split of the same entropy,
     recoveries over subset sizes, mixtures, relabelled headers, corrupted members."""
-    pw = passphrase_for(ctx, rng, jn)
+    pw = passphrase_for(ctx, rng, jn // 2)
     ent = rand_bytes(rng, size) if jn % 5 else bytes([jn % 256]) * size
     mnemonic = ref39.entropy_to_mnemonic(ent)
     ctx.count("secret:%d" % size)
@@ -1110,11 +1110,12 @@ def run_shard(desc, ctx):
     pool = [s for s in pool if all(ref.resolve(t) is not None for t in s.split())]
     if pool:
         corruption_sweep(ctx, rng, c, pool)
+    if ctx.out_of_time():
+        return
     crypt_direct(ctx, rng, c["crypt"])
     sharing_direct(ctx, rng, c["direct"], idx, n)
     codec(ctx, rng, c["codec"])
     check_tables_unchanged(ctx, snap)
-    ctx.out_of_time()
 
 
 def replay(case, ctx):
